@@ -733,10 +733,32 @@ pub fn build_reverse_chain(glyphs: &[u16], variant: u64) -> Vec<u8> {
     let nback = (variant / 2 % 3) as usize;
     let nahead = (variant / 6 % 3) as usize;
     // input: all but the last glyph; substitutes: the next glyph in the list
-    let input: Vec<u16> = glyphs[..glyphs.len() - 1].to_vec();
-    let subst: Vec<u16> = glyphs[1..].to_vec();
+    let mut input: Vec<u16> = glyphs[..glyphs.len() - 1].to_vec();
+    let mut subst: Vec<u16> = glyphs[1..].to_vec();
     let all = coverage(glyphs, fmt2);
-    let inp = coverage(&input, fmt2);
+    let mut inp = coverage(&input, fmt2);
+    // Overlapping ranges (the parser accepts them; the first range in array order wins): the
+    // input coverage becomes two format 2 ranges over [lo, hi] that share their middle third,
+    // with one substitute per coverage index, so that a glyph in the overlap gets a different
+    // substitute from each range.
+    let (lo, hi) = (*input.iter().min().unwrap_or(&1), *input.iter().max().unwrap_or(&1));
+    if fmt2 && variant / 18 % 4 == 3 && hi > lo + 2 && hi - lo <= 200 {
+        let third = (hi - lo) / 3;
+        let (a_end, b_start) = (hi - third, lo + third);
+        let first_len = a_end - lo + 1;
+        inp = Vec::new();
+        p16(&mut inp, 2);
+        p16(&mut inp, 2);
+        for (s, e, idx) in [(lo, a_end, 0u16), (b_start, hi, first_len)] {
+            p16(&mut inp, s);
+            p16(&mut inp, e);
+            p16(&mut inp, idx);
+        }
+        let total = usize::from(first_len) + usize::from(hi - b_start + 1);
+        subst = (0..total).map(|i| glyphs[i % glyphs.len()]).collect();
+        input = (lo..=hi).collect();
+    }
+    let _ = &input;
     let header = 2 + 2 + 2 + 2 * nback + 2 + 2 * nahead + 2 + 2 * subst.len();
     let inp_at = header;
     let all_at = inp_at + inp.len();
@@ -2205,7 +2227,7 @@ pub fn apply(disk: &mut Disk, s: &Surgery) -> Result<(), String> {
             disk.tables.insert(tag_from_str("hhea"), Rc::new(hhea2));
             Ok(())
         }
-        Surgery::InstallVertical { num_v_metrics } => {
+        Surgery::InstallVertical { num_v_metrics, over, vvar } => {
             let n = num_glyphs(disk)?;
             let hhea = disk
                 .tables
@@ -2227,8 +2249,36 @@ pub fn apply(disk: &mut Disk, s: &Surgery) -> Result<(), String> {
             for g in nv..n {
                 vmtx.extend_from_slice(&((g % 5) as i16 * 3 - 4).to_be_bytes());
             }
+            if *over {
+                // vhea promises one long metric more than vmtx holds (not a well-formed font)
+                let nv1 = nv.saturating_add(1);
+                vhea[34..36].copy_from_slice(&nv1.to_be_bytes());
+                if nv < n {
+                    vmtx.truncate(4 * usize::from(nv));
+                }
+            }
             disk.tables.insert(tag_from_str("vhea"), Rc::new(vhea));
             disk.tables.insert(tag_from_str("vmtx"), Rc::new(vmtx));
+            if *vvar {
+                // a minimal well-formed VVAR: one region over the font's axes, no delta sets, no mappings
+                if let Some(axes) = disk.tables.get(&FVAR).and_then(|f| be16(f, 8)) {
+                    let mut v = Vec::new();
+                    v.extend_from_slice(&[0, 1, 0, 0]);
+                    v.extend_from_slice(&24u32.to_be_bytes());
+                    v.extend_from_slice(&[0u8; 16]);
+                    v.extend_from_slice(&1u16.to_be_bytes());
+                    v.extend_from_slice(&8u32.to_be_bytes());
+                    v.extend_from_slice(&0u16.to_be_bytes());
+                    v.extend_from_slice(&axes.to_be_bytes());
+                    v.extend_from_slice(&1u16.to_be_bytes());
+                    for _ in 0..axes {
+                        v.extend_from_slice(&0i16.to_be_bytes());
+                        v.extend_from_slice(&0x4000i16.to_be_bytes());
+                        v.extend_from_slice(&0x4000i16.to_be_bytes());
+                    }
+                    disk.tables.insert(tag_from_str("VVAR"), Rc::new(v));
+                }
+            }
             Ok(())
         }
     }
